@@ -124,6 +124,13 @@ func enumerate(c *hk.Ctx) []scen {
 			if fr == "length" {
 				x.Fault, x.Pos = "http500", "none"
 				out = append(out, x)
+				if cb.answered == 0 {
+					for _, f := range []string{"close", "reset"} { // the boundary before the request is read
+						x = b
+						x.Where, x.Fault, x.Pos = "accept", f, "none"
+						out = append(out, x)
+					}
+				}
 			}
 		}
 		// ---- Streamable HTTP, SSE answers
@@ -173,6 +180,11 @@ func enumerate(c *hk.Ctx) []scen {
 			x = b
 			x.Where, x.Fault, x.Pos, x.Ctx = "post", "stall", "none", "cancel"
 			out = append(out, x)
+			if cb.answered == 0 {
+				x = b
+				x.Where, x.Fault, x.Pos = "accept", "reset", "none"
+				out = append(out, x)
+			}
 		}
 		// ---- stdio
 		{
@@ -197,6 +209,11 @@ func enumerate(c *hk.Ctx) []scen {
 			x = b
 			x.Fault, x.Pos = "none", "frameEnd"
 			out = append(out, x)
+			if cb.answered == 0 {
+				x = b
+				x.Where, x.Fault, x.Pos = "afterInit", "exit", "none"
+				out = append(out, x)
+			}
 		}
 	}
 	return out
@@ -204,7 +221,46 @@ func enumerate(c *hk.Ctx) []scen {
 
 func fpOf(sc scen, p problem) string { return p.fp }
 
+// replay runs the fault script of a replay file (or a bare scenario object) `VERIF_CALLS_REPLAY_N` times (default 3).
+func replay(c *hk.Ctx, path string) {
+	b, err := os.ReadFile(path)
+	if err != nil {
+		panic(err)
+	}
+	var wrap struct {
+		Input json.RawMessage `json:"input"`
+	}
+	_ = json.Unmarshal(b, &wrap)
+	if len(wrap.Input) > 0 {
+		b = wrap.Input
+	}
+	var sc scen
+	if err := json.Unmarshal(b, &sc); err != nil || sc.T == "" {
+		fmt.Fprintln(os.Stderr, "replay: not a fault script (special scripts closeLive / getAfterClose run in every normal run)")
+		return
+	}
+	n := 3
+	fmt.Sscanf(os.Getenv("VERIF_CALLS_REPLAY_N"), "%d", &n)
+	runHTTP(scen{T: "streamJson", Framing: "length", N: 1, Fault: "none", Pos: "frameEnd", Ctx: "none"})
+	for i := 0; i < n; i++ {
+		ts := time.Now()
+		obs, probs := runOne(sc, c.Dir)
+		for _, p := range probs {
+			fmt.Fprintf(os.Stderr, "replay %d: %s: %s %v\n", i, p.fp, p.what, p.observed)
+			if i == n-1 {
+				c.Violate(hk.Violation{Fingerprint: p.fp, What: p.what, Input: sc, Observed: p.observed})
+			}
+		}
+		fmt.Fprintf(os.Stderr, "replay %d: %v (%.3fs)\n", i, obs, time.Since(ts).Seconds())
+		c.Emit(sc.op(), obs, true, "replay")
+	}
+}
+
 func run(c *hk.Ctx) {
+	if hk.ReplayFile != "" {
+		replay(c, hk.ReplayFile)
+		return
+	}
 	t0 := time.Now()
 	// warm up: the first client of a process creates runtime-internal goroutines that would otherwise count as a difference
 	warm := scen{T: "streamJson", Framing: "length", N: 1, Fault: "none", Pos: "frameEnd", Ctx: "none"}
@@ -212,6 +268,7 @@ func run(c *hk.Ctx) {
 	scens := enumerate(c)
 	reruns, noise := 0, 0
 	confirmed := map[string]bool{}
+	transient := map[string]int{}
 	timing := map[string]float64{}
 	for _, sc := range scens {
 		ts := time.Now()
@@ -240,6 +297,7 @@ func run(c *hk.Ctx) {
 				}
 				for fp := range persistent {
 					if !seen[fp] {
+						transient[fp+" @ "+sc.T+"/"+sc.Fault+"/"+sc.Pos+"/"+sc.Ctx]++
 						delete(persistent, fp)
 						noise++
 						c.Noise()
@@ -282,6 +340,7 @@ func run(c *hk.Ctx) {
 	c.SetExtra("timing_s", timing)
 	c.SetExtra("solo_reruns", reruns)
 	c.SetExtra("transient_oracle_failures", noise)
+	c.SetExtra("transient_oracle_failures_by_kind", transient)
 	c.SetExtra("scenarios", len(scens))
 	c.SetExtra("wall_s", time.Since(t0).Seconds())
 }
